@@ -170,6 +170,7 @@ func (p *peer) loop() {
 
 func (p *peer) serve(c net.Conn) {
 	defer c.Close()
+	defer func() { _ = recover() }() // a malformed request ends the connection, never the driver
 	msg, err := protocol.ReceiveMessage(c, 20*time.Second)
 	if err != nil {
 		return
@@ -184,14 +185,18 @@ func (p *peer) serve(c net.Conn) {
 	p.sawReq = true
 	p.mu.Unlock()
 
-	off := req.ByteOffset
-	if off < 0 || off > int64(len(good)) {
-		off = 0
-	}
-	tail := good[off:]
 	send := func(a *protocol.FetchFileAckHeader) bool {
 		return protocol.SendMessage(c, &protocol.Message{Type: protocol.MsgFetchFileAck, Payload: a}, 20*time.Second) == nil
 	}
+	// a request the script did not anticipate is answered as arc's own fetch handler (Coordinator.handleFetchFile) would:
+	// an offset outside [0, size) is rejected with bad_offset whatever the scripted outcome is
+	off := req.ByteOffset
+	if off < 0 || off >= int64(len(good)) {
+		send(&protocol.FetchFileAckHeader{Status: "error", Code: protocol.AckCodeBadOffset,
+			Error: fmt.Sprintf("invalid byte offset %d for file size %d", off, len(good))})
+		return
+	}
+	tail := good[off:]
 	okAck := &protocol.FetchFileAckHeader{Status: "ok", SizeBytes: int64(len(tail)), SHA256: sha, ByteOffset: req.ByteOffset}
 	tailUnits := len(tail) / scale
 	d := cur.K
@@ -237,7 +242,11 @@ func (p *peer) serve(c net.Conn) {
 			c.Write(tail)
 		}
 	default:
-		// "dial" and "nopeer" never reach the server
+		// "dial"/"none" candidates are not expected to be contacted; if the code under test comes here anyway
+		// (more requests than the script anticipated) the peer serves the file correctly
+		if send(okAck) {
+			c.Write(tail)
+		}
 	}
 }
 
